@@ -573,6 +573,73 @@ FINAL_EXP = 3 * (Q ** 12 - 1) // R
 assert (Q ** 12 - 1) % R == 0
 
 
+# ------------------------------------------------------------------ textbook reduced ate pairing (spec side)
+# No sparse products, no twist-specific line formulas, no projective coordinates: Q is untwisted into
+# E(Fq12), the Miller function f_{|x|,Q} is evaluated at P with affine tangent/chord lines over Fq12
+# (vertical lines dropped: they lie in a proper subfield), then conj (x < 0) and ^(3(q^12-1)/r).
+
+def f6_inv(a):
+    m, s = F2.mul, F2.sub
+    a0, a1, a2 = a
+    t0 = s(m(a0, a0), m(XI, m(a1, a2)))
+    t1 = s(m(XI, m(a2, a2)), m(a0, a1))
+    t2 = s(m(a1, a1), m(a0, a2))
+    n = F2.add(m(a0, t0), m(XI, F2.add(m(a2, t1), m(a1, t2))))
+    ni = F2.inv(n)
+    return (m(t0, ni), m(t1, ni), m(t2, ni))
+
+
+def f12_add(a, b): return (f6_add(a[0], b[0]), f6_add(a[1], b[1]))
+def f12_sub(a, b): return (f6_sub(a[0], b[0]), f6_sub(a[1], b[1]))
+def f12_conj(a): return (a[0], f6_neg(a[1]))
+
+
+def f12_inv(a):
+    n = f6_sub(f6_mul(a[0], a[0]), f6_mul_v(f6_mul(a[1], a[1])))
+    ni = f6_inv(n)
+    return (f6_mul(a[0], ni), f6_neg(f6_mul(a[1], ni)))
+
+
+def f12_of_f2(c): return ((c, (0, 0), (0, 0)), F6_ZERO)
+def f12_of_fq(c): return f12_of_f2((c % Q, 0))
+
+
+F12_W = (F6_ZERO, F6_ONE)
+
+
+def untwist(Qp):
+    """E'(Fq2) -> E(Fq12), (x, y) -> (x / w^2, y / w^3)   (w^6 = xi, E': y^2 = x^3 + 4 xi)"""
+    w2 = f12_mul(F12_W, F12_W)
+    w3 = f12_mul(w2, F12_W)
+    return (f12_mul(f12_of_f2(Qp[0]), f12_inv(w2)), f12_mul(f12_of_f2(Qp[1]), f12_inv(w3)))
+
+
+def ate_pairing(P, Qp):
+    """P affine on E(Fq), Qp affine on E'(Fq2) (both finite): conj(f_{|x|,psi(Q)}(P)) ^ (3 (q^12 - 1) / r)"""
+    xq, yq = untwist(Qp)
+    assert f12_sub(f12_mul(yq, yq), f12_add(f12_mul(xq, f12_mul(xq, xq)), f12_of_fq(4))) == F12_ZERO
+    xp, yp = f12_of_fq(P[0]), f12_of_fq(P[1])
+    xt, yt = xq, yq
+    f = F12_ONE
+    three, two = f12_of_fq(3), f12_of_fq(2)
+    n = -X
+    for i in range(n.bit_length() - 2, -1, -1):
+        lam = f12_mul(f12_mul(three, f12_mul(xt, xt)), f12_inv(f12_mul(two, yt)))
+        line = f12_sub(f12_sub(yp, yt), f12_mul(lam, f12_sub(xp, xt)))
+        f = f12_mul(f12_mul(f, f), line)
+        x3 = f12_sub(f12_mul(lam, lam), f12_add(xt, xt))
+        yt = f12_sub(f12_mul(lam, f12_sub(xt, x3)), yt)
+        xt = x3
+        if (n >> i) & 1:
+            lam = f12_mul(f12_sub(yq, yt), f12_inv(f12_sub(xq, xt)))
+            line = f12_sub(f12_sub(yp, yt), f12_mul(lam, f12_sub(xp, xt)))
+            f = f12_mul(f, line)
+            x3 = f12_sub(f12_sub(f12_mul(lam, lam), xt), xq)
+            yt = f12_sub(f12_mul(lam, f12_sub(xt, x3)), yt)
+            xt = x3
+    return f12_pow(f12_conj(f), FINAL_EXP)
+
+
 # ------------------------------------------------------------------ polynomial root finding over Fq / Fq2
 # (used to construct inputs with special OUTPUTS: kernel points of the isogenies = roots of XDEN,
 #  points whose image has x = 0 = roots of XNUM, ...).  Polynomials are coefficient lists, constant term first.
